@@ -117,7 +117,9 @@ def spec_incr(impl, old_v, pattern, fl, date):
             cur[f] = RESET_INIT[f]
         elif cur[f] != old[f]:
             changed = True
-    return {f: cur[f] for f in fields}
+    out = {f: cur[f] for f in fields}
+    out["_all"] = dict(cur)
+    return out
 
 
 def check_spec(rep, impl, old, pattern, fl, date, new):
@@ -129,6 +131,7 @@ def check_spec(rep, impl, old, pattern, fl, date, new):
         rep.violation("bumped version cannot be read back (%s)" % type(ex).__name__, input=dict(old=old, pattern=pattern, flags=fl, date=str(date), new=new), **{"class": "new-unreadable"})
         return
     exp = spec_incr(impl, old_v, pattern, fl, date)
+    exp.pop("_all", None)
     for f, want in exp.items():
         got = getattr(new_v, f)
         if f == "bid":
@@ -162,6 +165,8 @@ def expected_success(impl, old, pattern, fl, date):
     if not impl.v2version.is_valid_week_pattern(pattern):
         return None
     exp = spec_incr(impl, old_v, pattern, fl, date)
+    # the whole record (tag and pytag together, parts the pattern does not show included), as the code carries it
+    exp = dict(exp.pop("_all"))
     try:
         bid = old_v.bid
         if int(bid) < 1000:
